@@ -185,9 +185,137 @@ theorem addRow_eq (G : BipG) (u : Nat) (vs : List Nat) :
 
 /-! ### bipartite_random_left_regular -/
 
-/-- the loop of `bipartite_random_left_regular` over the left vertices `us` still to do -/
+/-- the rejection loop of the `r > sys.maxsize` branch, whenever it ends: `need` more values,
+all distinct and in `[1, r]` — whatever was drawn and however often a value was repeated -/
+theorem distinctRandints_ok (r : Int) (fuel need : Nat) (acc s : List Nat) (ds rest : List Draw)
+    (hnd : acc.Nodup) (hmem : ∀ v ∈ acc, 1 ≤ v ∧ (v : Int) ≤ r)
+    (h : distinctRandints r fuel need acc ds = .ok s rest) :
+    s.length = acc.length + need ∧ s.Nodup ∧ ∀ v ∈ s, 1 ≤ v ∧ (v : Int) ≤ r := by
+  induction fuel generalizing need acc ds with
+  | zero =>
+    cases need with
+    | zero => simp only [distinctRandints, pure_ok] at h; obtain ⟨rfl, _⟩ := h; exact ⟨rfl, hnd, hmem⟩
+    | succ n => simp [distinctRandints] at h
+  | succ fuel ih =>
+    cases need with
+    | zero => simp only [distinctRandints, pure_ok] at h; obtain ⟨rfl, _⟩ := h; exact ⟨rfl, hnd, hmem⟩
+    | succ n =>
+      simp only [distinctRandints] at h
+      rw [bind_ok] at h
+      obtain ⟨v, mid, hv, h⟩ := h
+      obtain ⟨hv1, hv2, _⟩ := randint_ok _ _ _ _ _ hv
+      split at h
+      · exact ih (n + 1) acc mid hnd hmem h
+      · rename_i hc
+        have := ih n (v.toNat :: acc) mid (List.nodup_cons.2 ⟨by simpa using hc, hnd⟩) (by
+          intro w hw
+          rcases List.mem_cons.1 hw with rfl | hw
+          · omega
+          · exact hmem w hw) h
+        simp only [List.length_cons] at this
+        exact ⟨by omega, this.2⟩
+
+/-- the rejection loop never raises -/
+theorem distinctRandints_exc (r : Int) (fuel need : Nat) (acc : List Nat) (ds : List Draw) (e : Err)
+    (hr : 1 ≤ r) (h : distinctRandints r fuel need acc ds = .exc e) : False := by
+  induction fuel generalizing need acc ds with
+  | zero => cases need <;> simp [distinctRandints] at h
+  | succ fuel ih =>
+    cases need with
+    | zero => simp [distinctRandints] at h
+    | succ n =>
+      simp only [distinctRandints] at h
+      rw [bind_exc] at h
+      rcases h with h | ⟨v, mid, _, h⟩
+      · have := (randint_exc _ _ _ _ h).2; omega
+      · split at h
+        · exact ih _ _ _ h
+        · exact ih _ _ _ h
+
+theorem distinctRandints_noForeign (r : Int) (fuel need : Nat) (acc : List Nat) :
+    NoForeign (distinctRandints r fuel need acc) := by
+  induction fuel generalizing need acc with
+  | zero =>
+    cases need with
+    | zero => exact NoForeign.pure _
+    | succ n => exact NoForeign.stuck
+  | succ fuel ih =>
+    cases need with
+    | zero => exact NoForeign.pure _
+    | succ n =>
+      simp only [distinctRandints]
+      exact NoForeign.bind (NoForeign.randint _ _) (fun v => NoForeign.ite (ih _ _) (ih _ _))
+
+/-- the rejection loop ends on every draw list that starts with `need` fresh legal values
+(repeats of values already collected may be interspersed: see `distinctRandints_skip`) -/
+theorem distinctRandints_complete (r : Int) (vs : List Nat) (fuel : Nat) (acc : List Nat) (rest : List Draw)
+    (hfuel : vs.length ≤ fuel) (hnd : vs.Nodup) (hdisj : ∀ v ∈ vs, v ∉ acc)
+    (hmem : ∀ v ∈ vs, 1 ≤ v ∧ (v : Int) ≤ r) :
+    distinctRandints r fuel vs.length acc (vs.map (fun (v : Nat) => Draw.randint (v : Int)) ++ rest)
+      = .ok (vs.reverse ++ acc) rest := by
+  induction vs generalizing fuel acc with
+  | nil => cases fuel <;> simp [distinctRandints, pure, RM.pure]
+  | cons v vs ih =>
+    cases fuel with
+    | zero => simp at hfuel
+    | succ fuel =>
+      have hv := hmem v (by simp)
+      have hr : ¬ r < 1 := by omega
+      simp only [List.nodup_cons] at hnd
+      have := ih fuel (v :: acc) (by simpa using hfuel) hnd.2 (by
+        intro w hw hc
+        rcases List.mem_cons.1 hc with rfl | hc
+        · exact hnd.1 hw
+        · exact hdisj w (by simp [hw]) hc) (fun w hw => hmem w (by simp [hw]))
+      have hna' : v ∉ acc := hdisj v (by simp)
+      have h1 : (1 : Int) ≤ (v : Int) := by omega
+      simp only [List.length_cons, List.map_cons, List.cons_append, distinctRandints]
+      show RM.bind _ _ _ = _
+      simp [RM.bind, randint, hr, h1, hv.2, hna', this]
+
+/-- a draw that repeats a value already collected is consumed and changes nothing else -/
+theorem distinctRandints_skip (r : Int) (fuel need : Nat) (acc : List Nat) (v : Nat) (ds : List Draw)
+    (hv : v ∈ acc) (hv1 : 1 ≤ v ∧ (v : Int) ≤ r) :
+    distinctRandints r (fuel + 1) (need + 1) acc (Draw.randint (v : Int) :: ds)
+      = distinctRandints r fuel (need + 1) acc ds := by
+  have hr : ¬ r < 1 := by omega
+  have h1 : (1 : Int) ≤ (v : Int) := by omega
+  simp only [distinctRandints]
+  show RM.bind _ _ _ = _
+  simp [RM.bind, randint, hr, h1, hv1.2, hv]
+
+/-- the neighbours of one left vertex (either branch), whenever they are obtained -/
+theorem glrdNeighbours_ok (r : Nat) (d : Int) (ds rest : List Draw) (s : List Nat) (hd : 0 ≤ d)
+    (h : glrdNeighbours r d ds = .ok s rest) :
+    (s.length : Int) = d ∧ s.Nodup ∧ ∀ x ∈ s, x ∈ rangeN 1 (r + 1) := by
+  unfold glrdNeighbours at h
+  split at h
+  · obtain ⟨h1, h2, h3, _⟩ := sample_ok _ _ _ _ _ h
+    exact ⟨h1, h2, h3⟩
+  · obtain ⟨h1, h2, h3⟩ := distinctRandints_ok r ds.length d.toNat [] s ds rest List.nodup_nil (by simp) h
+    refine ⟨by simp at h1; omega, h2, ?_⟩
+    intro x hx; have := h3 x hx; rw [mem_rangeN]; omega
+
+theorem glrdNeighbours_exc (r : Nat) (d : Int) (ds : List Draw) (e : Err)
+    (h : glrdNeighbours r d ds = .exc e) : e = .valueError ∧ (d < 0 ∨ (r : Int) < d) := by
+  unfold glrdNeighbours at h
+  split at h
+  · have := sample_exc _ _ _ _ h
+    rw [length_rangeN] at this
+    exact ⟨this.1, by omega⟩
+  · rename_i hr
+    exact (distinctRandints_exc r _ _ _ ds e (by simp only [sysMaxsize] at hr; omega) h).elim
+
+theorem glrdNeighbours_noForeign (r : Nat) (d : Int) : NoForeign (glrdNeighbours r d) := by
+  unfold glrdNeighbours
+  split
+  · exact NoForeign.sample _ _
+  · intro ds; exact distinctRandints_noForeign _ _ _ _ ds
+
+/-- the loop of `bipartite_random_left_regular` over the left vertices `us` still to do
+(for every `r`: both the `random.sample` branch and the rejection loop of `r > sys.maxsize`) -/
 theorem leftRegularLoop_spec (r : Nat) (d : Int) (us : List Nat) (G G' : BipG) (ds rest : List Draw)
-    (hI : G.InvGB) (hr : G.r = r) (hus : us.Nodup)
+    (hd : 0 ≤ d) (hI : G.InvGB) (hr : G.r = r) (hus : us.Nodup)
     (hfree : ∀ e ∈ G.edgeset, e.1 ∉ us)
     (h : leftRegularLoop r d us G ds = .ok G' rest) :
     G'.InvGB ∧ G'.l = G.l ∧ G'.r = G.r ∧
@@ -205,7 +333,7 @@ theorem leftRegularLoop_spec (r : Nat) (d : Int) (us : List Nat) (G G' : BipG) (
     obtain ⟨G1, mid2, hrow, h⟩ := h
     rw [lift_ok] at hrow
     obtain ⟨hrow, rfl⟩ := hrow
-    obtain ⟨hlen, hnd, hmem, _⟩ := sample_ok _ _ _ _ _ hs
+    obtain ⟨hlen, hnd, hmem⟩ := glrdNeighbours_ok _ _ _ _ _ hd hs
     rw [addRow_eq] at hrow
     obtain ⟨hI1, hl1, hr1, hm1, _⟩ := BipG.addEdgesFrom_spec_gb _ G G1 hI hrow
     have hmap := rowCalls_natPair u (sortNat s)
@@ -249,7 +377,7 @@ theorem leftRegularLoop_spec (r : Nat) (d : Int) (us : List Nat) (G G' : BipG) (
         rw [List.countP_eq_zero]; intro a _; simp; exact fun h => hx.1 h.symm
       omega
 
-/-- `bipartite_random_left_regular(l, r, d)`, whenever it returns -/
+/-- `bipartite_random_left_regular(l, r, d)`, whenever it returns (every `r`, both branches) -/
 theorem leftRegular_ok (l r d : Int) (ds rest : List Draw) (G : BipG)
     (h : leftRegular l r d ds = .ok G rest) :
     0 ≤ l ∧ 0 ≤ r ∧ 0 ≤ d ∧ G.InvGB ∧ G.l = l.toNat ∧ G.r = r.toNat ∧
@@ -259,7 +387,7 @@ theorem leftRegular_ok (l r d : Int) (ds rest : List Draw) (G : BipG)
   · simp at h
   · rename_i hg
     have hg' : 0 ≤ l ∧ 0 ≤ r ∧ 0 ≤ d := by omega
-    obtain ⟨hI, hl, hr, hdeg, _⟩ := leftRegularLoop_spec r.toNat (min r d) _ _ G ds rest
+    obtain ⟨hI, hl, hr, hdeg, _⟩ := leftRegularLoop_spec r.toNat (min r d) _ _ G ds rest (by omega)
       (BipG.inv_init_gb _ _) rfl (nodup_rangeN _ _) (by simp [BipG.init]) h
     refine ⟨hg'.1, hg'.2.1, hg'.2.2, hI, hl, hr, ?_⟩
     intro u h1 h2
@@ -275,10 +403,10 @@ theorem leftRegularLoop_exc (r : Nat) (d : Int) (us : List Nat) (G : BipG) (ds :
     simp only [leftRegularLoop] at h
     rw [bind_exc] at h
     rcases h with h | ⟨s, mid, hs, h⟩
-    · have := (sample_exc _ _ _ _ h).2
-      rw [length_rangeN] at this; omega
+    · have := (glrdNeighbours_exc _ _ _ _ h).2
+      omega
     · rw [bind_exc] at h
-      obtain ⟨_, _, hmem, _⟩ := sample_ok _ _ _ _ _ hs
+      obtain ⟨_, _, hmem⟩ := glrdNeighbours_ok _ _ _ _ _ hd.1 hs
       rcases h with h | ⟨G1, mid2, hrow, h⟩
       · rw [lift_exc, addRow_eq] at h
         obtain ⟨_, x, hx, hbad⟩ := BipG.addEdgesFrom_error_gb _ _ _ h
@@ -296,7 +424,7 @@ theorem leftRegularLoop_exc (r : Nat) (d : Int) (us : List Nat) (G : BipG) (ds :
           intro x hx; have := hus x (by simp [hx]); omega) h
 
 /-- `bipartite_random_left_regular` raises only its documented `ValueError`, and only for a
-negative argument -/
+negative argument (every `r`, both branches) -/
 theorem leftRegular_exc (l r d : Int) (ds : List Draw) (e : Err)
     (h : leftRegular l r d ds = .exc e) : e = .valueError ∧ (l < 0 ∨ r < 0 ∨ d < 0) := by
   unfold leftRegular at h
@@ -314,11 +442,141 @@ theorem leftRegularLoop_noForeign (r : Nat) (d : Int) (us : List Nat) (G : BipG)
   | nil => exact NoForeign.pure _
   | cons u us ih =>
     simp only [leftRegularLoop]
-    exact NoForeign.bind (NoForeign.sample _ _) (fun s => NoForeign.bind (NoForeign.lift _) (fun G1 => ih G1))
+    exact NoForeign.bind (glrdNeighbours_noForeign _ _) (fun s => NoForeign.bind (NoForeign.lift _) (fun G1 => ih G1))
 
 theorem leftRegular_noForeign (l r d : Int) : NoForeign (leftRegular l r d) := by
   unfold leftRegular
   exact NoForeign.ite (NoForeign.raise _) (leftRegularLoop_noForeign _ _ _ _)
+
+/-- one left vertex of the `r > sys.maxsize` branch: the rejection loop ends on every draw list
+that starts with `d` distinct legal values -/
+theorem glrdNeighbours_complete (r : Nat) (d : Int) (vs : List Nat) (rest : List Draw)
+    (hbig : sysMaxsize < r) (hd : d = vs.length) (hnd : vs.Nodup) (hmem : ∀ v ∈ vs, 1 ≤ v ∧ v ≤ r) :
+    glrdNeighbours r d (vs.map (fun (v : Nat) => Draw.randint (v : Int)) ++ rest) = .ok vs.reverse rest := by
+  unfold glrdNeighbours
+  rw [if_neg (by omega)]
+  have := distinctRandints_complete r vs (vs.map (fun (v : Nat) => Draw.randint (v : Int)) ++ rest).length [] rest
+    (by simp) hnd (by simp) (fun v hv => by have := hmem v hv; omega)
+  simp only [List.append_nil] at this
+  subst hd
+  simpa using this
+
+/-- a legal draw list on which the `r > sys.maxsize` branch returns: `1, …, d` for every left vertex -/
+def glrdEasyDraws (n : Nat) (d : Nat) : List Draw :=
+  (List.replicate n ((rangeN 1 (d + 1)).map (fun (v : Nat) => Draw.randint (v : Int)))).flatten
+
+/-- termination of the rejection loops, in the only form the draws-as-inputs model can state it:
+for every `r > sys.maxsize` there is a legal draw list on which the loop over the left vertices returns -/
+theorem leftRegularLoop_returns (r : Nat) (d : Nat) (us : List Nat) (G : BipG)
+    (hbig : sysMaxsize < r) (hr : G.r = r) (hd : d ≤ r) (hus : ∀ u ∈ us, 1 ≤ u ∧ u ≤ G.l) :
+    ∃ G', leftRegularLoop r d us G (glrdEasyDraws us.length d) = .ok G' [] := by
+  induction us generalizing G with
+  | nil => exact ⟨G, rfl⟩
+  | cons u us ih =>
+    have hs := glrdNeighbours_complete r d (rangeN 1 (d + 1)) (glrdEasyDraws us.length d) hbig
+      (by rw [length_rangeN]; simp) (nodup_rangeN _ _) (by intro v hv; rw [mem_rangeN] at hv; omega)
+    have hmem : ∀ v ∈ sortNat (rangeN 1 (d + 1)).reverse, 1 ≤ v ∧ v ≤ r := by
+      intro v hv
+      have := (perm_sortNat _).mem_iff.1 hv
+      rw [List.mem_reverse, mem_rangeN] at this; omega
+    cases hrow : addRow G u (sortNat (rangeN 1 (d + 1)).reverse) with
+    | error e =>
+      rw [addRow_eq] at hrow
+      obtain ⟨_, x, hx, hbad⟩ := BipG.addEdgesFrom_error_gb _ _ _ hrow
+      simp only [rowCalls, List.mem_map] at hx
+      obtain ⟨v, hv, rfl⟩ := hx
+      have := hmem v hv
+      have := hus u (by simp)
+      exact (hbad (by simp only; omega)).elim
+    | ok G1 =>
+      have hsides : G1.l = G.l ∧ G1.r = G.r := by
+        rw [addRow_eq] at hrow; exact BipG.addEdgesFrom_sides _ _ _ hrow
+      obtain ⟨G', hG'⟩ := ih G1 (by omega) (by intro x hx; have := hus x (by simp [hx]); omega)
+      refine ⟨G', ?_⟩
+      simp only [leftRegularLoop, glrdEasyDraws, List.length_cons, List.replicate_succ, List.flatten_cons]
+      show RM.bind _ _ _ = _
+      unfold RM.bind
+      rw [show (List.replicate us.length ((rangeN 1 (d + 1)).map (fun (v : Nat) => Draw.randint (v : Int)))).flatten
+        = glrdEasyDraws us.length d from rfl, hs]
+      show RM.bind _ _ _ = _
+      unfold RM.bind
+      rw [hrow]
+      exact hG'
+
+/-- `bipartite_random_left_regular(l, r, d)` with `r > sys.maxsize` returns on some legal draw list
+(so `leftRegular_ok` is not vacuous on the new branch, for any arguments) -/
+theorem leftRegular_returns (l r d : Int) (hl : 0 ≤ l) (hd : 0 ≤ d) (hbig : (sysMaxsize : Int) < r) :
+    ∃ G, leftRegular l r d (glrdEasyDraws l.toNat (min r d).toNat) = .ok G [] := by
+  unfold leftRegular
+  rw [if_neg (by omega)]
+  have := leftRegularLoop_returns r.toNat (min r d).toNat (rangeN 1 (l.toNat + 1)) (BipG.init l.toNat r.toNat)
+    (by omega) rfl (by omega) (by intro u hu; rw [mem_rangeN] at hu; simp only [BipG.init]; omega)
+  rw [length_rangeN, Int.toNat_of_nonneg (by omega)] at this
+  simpa using this
+
+/-! ### `leftRegularNoRadj`: what the compiled driver runs for `r > sys.maxsize` -/
+
+/-- apply `f` to the value returned -/
+def outMap {α β} (f : α → β) : Out α → Out β
+  | .ok a rest => .ok (f a) rest
+  | .exc e => .exc e
+  | .foreign => .foreign
+  | .stuck => .stuck
+
+theorem dropRadj_addEdge (G : BipG) (u v : Int) :
+    (dropRadj G).addEdge u v = (G.addEdge u v).map dropRadj := by
+  unfold BipG.addEdge
+  by_cases h1 : (1 ≤ u ∧ u ≤ G.l ∧ 1 ≤ v ∧ v ≤ G.r)
+  · by_cases h2 : G.hasEdge u v = true
+    · simp [h1, h2, dropRadj, Except.map]
+      exact h2
+    · simp [h1, h2, dropRadj, Except.map]
+      exact Bool.eq_false_iff.2 h2
+  · have h1' : ¬ (1 ≤ u ∧ u ≤ (dropRadj G).l ∧ 1 ≤ v ∧ v ≤ (dropRadj G).r) := h1
+    simp only [h1, h1', not_false_eq_true, if_true, Except.map]
+
+theorem dropRadj_addRow (G : BipG) (u : Nat) (vs : List Nat) :
+    addRow (dropRadj G) u vs = (addRow G u vs).map dropRadj := by
+  induction vs generalizing G with
+  | nil => rfl
+  | cons v vs ih =>
+    simp only [addRow, List.foldlM] at ih ⊢
+    rw [dropRadj_addEdge]
+    cases G.addEdge u v with
+    | error e => rfl
+    | ok G1 => exact ih G1
+
+theorem dropRadj_leftRegularLoop (r : Nat) (d : Int) (us : List Nat) (G : BipG) (ds : List Draw) :
+    leftRegularLoop r d us (dropRadj G) ds = outMap dropRadj (leftRegularLoop r d us G ds) := by
+  induction us generalizing G ds with
+  | nil => rfl
+  | cons u us ih =>
+    simp only [leftRegularLoop]
+    show RM.bind _ _ _ = outMap _ (RM.bind _ _ _)
+    unfold RM.bind
+    cases glrdNeighbours r d ds with
+    | ok s mid =>
+      show RM.bind _ _ _ = outMap _ (RM.bind _ _ _)
+      unfold RM.bind
+      rw [dropRadj_addRow]
+      cases addRow G u (sortNat s) with
+      | error e => rfl
+      | ok G1 => exact ih G1 mid
+    | exc e => rfl
+    | foreign => rfl
+    | stuck => rfl
+
+/-- the run without right adjacency table is the run of the model, minus that table: same
+outcome kind, same draws consumed, same `l`, `r`, left adjacency lists and edge set -/
+theorem leftRegularNoRadj_eq (l r d : Int) (ds : List Draw) :
+    leftRegularNoRadj l r d ds = outMap dropRadj (leftRegular l r d ds) := by
+  unfold leftRegularNoRadj leftRegular
+  split
+  · rfl
+  · exact dropRadj_leftRegularLoop _ _ _ (BipG.init l.toNat r.toNat) ds
+
+theorem dropRadj_edges (G : BipG) : (dropRadj G).edges = G.edges := rfl
+theorem dropRadj_numberOfEdges (G : BipG) : (dropRadj G).numberOfEdges = G.numberOfEdges := rfl
 
 /-! ### bipartite_random_m_edges -/
 
